@@ -1214,19 +1214,19 @@ def oracle_ice2(case, ops, obs):
                 pending_seek = None
                 c += total
             elif op[1] > 0 and ob["stop"] and c < audio and not (ob["prot"] and ob["rem"] == 0) and pending_seek is None \
-                    and not ob["fault"]:
+                    and not ob.get("fault"):
                 if case["meta"] and short_seen and taint is None:
                     taint = (OVERREAD_KEY, "short read in ICY mode: _readall over-reads; framing is lost")
                 return fail("C17:icecast:premature-eof", "end of stream signalled (stopped, nothing buffered) at audio "
                             "offset %d of %d" % (c, audio), i)
     last = obs[-1] if obs else None
-    if last is not None and last["gets"] - last["ranged"] > 1:
+    if last is not None and last.get("gets", 0) - last.get("ranged", 0) > 1:
         # the connection was lost and the client asked for the stream again from its start: whatever it does with the
         # answer, the body starts over
         return fail("C17:icecast:reconnect-restarts-stream", "%d GET requests without a Range/offset for one stream (the "
                     "connection was lost after %d body bytes); reader had got %d audio bytes"
                     % (last["gets"] - last["ranged"], (case.get("fault") or {}).get("at", -1), c), len(obs) - 1)
-    if last is not None and last["fault"]:
+    if last is not None and last.get("fault"):
         return None                      # after a lost connection any in-order prefix followed by the end is fine
     if last is not None and last["spin"]:
         # The recorded finding explains exactly this: the loop never returns, the end is never signalled and
